@@ -79,7 +79,7 @@ CHECKS["C15"] = (
 
 CHECKS["C17"] = (
     "bounded symbolic execution (CrossHair+z3) over symbolic value text (character and segment selectors) and modifier, per position x pipeline instantiation; real from_dict -> pipeline -> convert_rule vs a reference expansion of the source text",
-    "Values: every string of length <= 4 over {%, a, b, backslash, *} and every concatenation of 1..3 segments out of 11 (0..3 placeholders with list/scalar/numeric/mixed-type/undefined variables, literals, wildcards, escaped percent); positions: field string, keyword, regular expression; 6 pipelines (none, value list, wildcard, include/exclude splits in both orders, query expression). Oracle: OR of exactly the reference expansions in configuration order, or a SigmaError naming the unresolved placeholder; never %name% in a query.",
+    "Values: every string of length <= 4 (quick) / 5 (thorough) over {%, a, b, backslash, *} and every concatenation of 1..3 segments out of 11 (0..3 placeholders with list/scalar/numeric/mixed-type/undefined variables, literals, wildcards, escaped percent); positions: field string, keyword, regular expression; 6 pipelines (none, value list, wildcard, include/exclude splits in both orders, query expression). Oracle: OR of exactly the reference expansions in configuration order, or a SigmaError naming the unresolved placeholder; never %name% in a query.",
     TB,
     "5.C17",
 )
@@ -93,21 +93,21 @@ CHECKS["C03"] = (
 
 CHECKS["C13"] = (
     "CrossHair symbolic execution of the real ProcessingItem gate logic with stub conditions whose outcomes are symbolic booleans (all outcomes decided at once), plus selector families for built-in conditions and applied-so-far scenarios",
-    "Rule / detection-item / field-name gates with 0..2 conditions each, list and map form, default/and/or linking, negation, field-reference path; 22 condition expressions on all three levels; built-in conditions (include/exclude fields plain+regex on a symbolic field name, match_string, contains_wildcard, is_null, contains_field / contains_detection_item over 8 rule shapes, logsource, tag, rule_attribute); pipelines whose later items are gated on processing_item_applied / processing_state of earlier items (rule, detection item and field level), and reset between rules.",
+    "Rule / detection-item / field-name gates with 0..2 conditions each, list and map form, default/and/or linking, negation, field-reference path; 22 condition expressions on all three levels; built-in conditions (include/exclude fields plain+regex on a symbolic field name of length <= 3 (quick) / 8 (thorough), match_string, contains_wildcard, is_null, contains_field / contains_detection_item over 8 rule shapes, logsource, tag, rule_attribute); pipelines whose later items are gated on processing_item_applied / processing_state of earlier items (rule, detection item and field level), and reset between rules.",
     TB,
     "5.C13",
 )
 
 CHECKS["C11"] = (
     "CrossHair-explored selector space (log sources, rule list forms, detection names and condition forms on both sides, stacking, draw of the internal prefix with random.choices stubbed) through the real collection loading + conversion; per rule one z3 query decides equivalence of the converted query with (rule) AND (filter over its own detections)",
-    "10 rule name/condition sets x 11 filter name/condition sets (overlapping names, names starting with keywords / digits / underscore, wildcard patterns, parenthesised groups, a name colliding with the drawn prefix) x 1..2 stacked filters x 3 draws; all 3^6 log source combinations x 8 rule-list forms; a bystander rule must stay unchanged; no internal identifier in any query.",
+    "10 rule name/condition sets x 11 filter name/condition sets (overlapping names, names starting with keywords / digits / underscore, wildcard patterns, parenthesised groups, a name colliding with the drawn prefix) x 1..2 stacked filters x 3 draws; all 3^6 log source combinations x 8 rule-list forms; a bystander rule must stay unchanged; no internal identifier in any query. Thorough: the name/condition/stacking/draw space crossed with 9 category relations x 4 rule-list forms.",
     TB,
     "5.C11",
 )
 
 CHECKS["C12"] = (
     "CrossHair-explored rule shapes through the real pipeline + conversion, one instantiation per built-in transformation / parameter variation; z3 decides equivalence of the converted query with the reference semantics of the hand-rewritten source; identity instances must give byte-identical queries",
-    "34 transformation instances (field mapping 1:1 / 1:n / keyword->field / prefix mapping / prefix / suffix / scoped by include/exclude/applied-item, drop item, add_condition plain / negated / template / scoped out, replace_string incl. identity, empty result and numbers, map_string 1:1 / 1:n / drop, case, set_value incl. false, convert_type, regex, nest, chains, 'matches nothing' instances) x two detections from a 14-shape pool x 6 condition forms.",
+    "34 transformation instances (field mapping 1:1 / 1:n / keyword->field / prefix mapping / prefix / suffix / scoped by include/exclude/applied-item, drop item, add_condition plain / negated / template / scoped out, replace_string incl. identity, empty result and numbers, map_string 1:1 / 1:n / drop, case, set_value incl. false, convert_type, regex, nest, chains, 'matches nothing' instances) x two detections from a 14-shape pool x 6 condition forms (thorough: 24-shape pool incl. cased / endswith / contains / lt / exists / re|i / mixed lists x 12 condition forms).",
     TB,
     "5.C12",
 )
@@ -121,7 +121,7 @@ CHECKS["C10"] = (
 
 CHECKS["C16"] = (
     "CrossHair symbolic execution of the capability gates with a symbolic environment value (os.environ stubbed) and selector families for key smuggling / nesting / allowed paths; every dangerous operation (subprocess, open, requests, importlib exec, realpath) is replaced by a recording stub",
-    "Gate functions of file/http/command placeholder and template items on every ASCII environment string of length <= 4 (symbolic) x caller flag; 10 item kinds (flat, nested in 'nest', template post-processing, template finalizer nested 0..3 levels) x 5 key-injection variants x 4 truthy values x caller opt-in x 12 environment values: a stub is reached only with caller opt-in or env in {1,true}, else SigmaSecurityError, capability flags never come from the document; allowed-path containment for vars files incl. prefix-sharing siblings, '..', symlink escapes (realpath stub) and nested finalizers / source_path default.",
+    "Gate functions of file/http/command placeholder and template items on every ASCII environment string of length <= 4 (quick) / 6 (thorough) (symbolic) x caller flag; 10 item kinds (flat, nested in 'nest', template post-processing, template finalizer nested 0..3 levels) x 5 key-injection variants x 4 truthy values x caller opt-in x 12 environment values: a stub is reached only with caller opt-in or env in {1,true}, else SigmaSecurityError, capability flags never come from the document; allowed-path containment for vars files incl. prefix-sharing siblings, '..', symlink escapes (realpath stub) and nested finalizers / source_path default.",
     TB + " The stubs stand in for Python audit events (not observable symbolically).",
     "5.C16",
 )
@@ -135,14 +135,14 @@ CHECKS["C19"] = (
 
 CHECKS["C20"] = (
     "CrossHair-explored selectors over the modelled sources of nondeterminism: iteration order of every set created by set()/frozenset() calls in sigma.* (order-permuting set subclasses injected into the module namespaces), regex flag sets, and the draws of random.choices; a 12-item corpus is converted with the real code per (order, draw) and compared byte for byte with the baseline",
-    "PARTIAL: decides independence from the modelled set iteration orders (4 orders) and random draws (4 draw sequences) for queries AND error texts of a 12-item corpus, and that internal identifiers never surface. Real PYTHONHASHSEED randomisation / process starts, and sets built by displays or comprehensions, are outside the solver's reach; they are only covered by a 3-seed subprocess self-check and listed by an AST scan.",
+    "PARTIAL: decides independence from the modelled set iteration orders (4 orders quick / 8 thorough) and random draws (4 draw sequences) for queries AND error texts of a 12-item corpus, and that internal identifiers never surface. Real PYTHONHASHSEED randomisation / process starts, and sets built by displays or comprehensions, are outside the solver's reach; they are only covered by a 3-seed subprocess self-check and listed by an AST scan.",
     TB,
     "5.C20",
 )
 
 CHECKS["C06"] = (
     "CrossHair-explored selector spaces (value text from character selectors x detection shape, metadata variants, transformation x rule shape, correlation / filter variants) through the real from_dict -> to_dict -> from_dict (and YAML) chain; dict forms and verification-backend queries compared",
-    "Detection rules: every value of length <= 2 over an 8-character alphabet in 18 detection shapes, via dict and via YAML; 16x16 metadata variant pairs; after one of 10 pipeline transformations on 12 rule shapes to_dict() must raise a SigmaError or reload to equal queries; correlation rules: 8 types x aliases x group-by x generate x percentile {0, 90} x extended condition; 4 filter shapes, compared inside a converted collection.",
+    "Detection rules: every value of length <= 2 (quick) / 3 (thorough) over an 8-character alphabet in 18 detection shapes, via dict and via YAML; 16x16 metadata variant pairs; after one of 10 pipeline transformations on 12 rule shapes to_dict() must raise a SigmaError or reload to equal queries; correlation rules: 8 types x aliases x group-by x generate x percentile {0, 90} x extended condition; 4 filter shapes, compared inside a converted collection.",
     TB,
     "5.C06",
 )
